@@ -281,8 +281,9 @@ public:
                 return false;
             }
         }
-        // If addr <= last, it's OK.
-        return addr < last_ || addr == last_;
+        // If addr <= last, it's OK (unless the last increment wrapped around, in 
+        // which case addr is no longer above first).
+        return first_ < addr && (addr < last_ || addr == last_);
     }
 private:
     address_type first_, last_;
